@@ -1,20 +1,23 @@
 """C16 — retryable operations retry exactly as configured (DESIGN.md section 4, C16).
 
-Decision table of Retry.__call__ per attempt outcome over the REAL (parsed) library exception hierarchy × (last attempt, retry-on-timeout, retry-on-error)."""
+The retry wrapper is decided END TO END on representative values: the statements of Retry.__call__ (and of every helper method / module function it calls, with arguments bound to
+parameters) are abstractly interpreted for a representative parameter dict and constructor flag up to the attempt loop (`world`), then ONE iteration of the loop body is interpreted for
+one outcome of the delegate (an exception class placed in the REAL, parsed library hierarchy, or a representative result) — `attempt`. No role is read off a name: which local carries
+which setting, how the last attempt is recognised, where the result is tested and which helper does it are all irrelevant, only the values that reach the loop bound, the tests, the
+sleep and the return count. Nothing of the repository is executed: `minieval.ev` evaluates the extracted expressions, the small interpreter below only sequences statements."""
 from __future__ import annotations
 
 import ast
 import itertools
+import operator
+import re
+import sys
 
 from sa import source
-from sa.cfg import cfg_of, guards
-from sa.classes import is_logging_stmt
+from sa.classes import ClassTable, decorator_names, is_logging_stmt
 from sa.exc import Hierarchy, handler_type_names
 from sa.minieval import CannotEval, Record, ev as mev
-from sa.pat import fact_nodes
-from sa.source import AnchorMissing, dotted, last_attr, local_defs, params_of, short, u, walk_body
-from sa.sym import UnknownAtom, parse_expr, rat_equal
-from sa.tables import Unsupported, decide
+from sa.source import AnchorMissing, FUNC_TYPES, dotted, last_attr, local_defs, params_of, short, u, walk_body
 
 _R = "esrally/driver/runner.py"
 
@@ -34,20 +37,492 @@ RAISED = [
     ("KeyError (not a transport error)", "KeyError", None, False),
 ]
 
-
-def is_sleep(e):
-    return isinstance(e, ast.Await) and isinstance(e.value, ast.Call) and dotted(e.value.func) == "asyncio.sleep"
+RETRY_KEYS = {"retries", "retry-until-success", "retry-wait-period", "retry-on-timeout", "retry-on-error"}
 
 
-def value_atom(env):
-    """atom function for tables.decide: a test (or any operand of its and/or/not structure) is EVALUATED on the representative values in `env` (local name -> value); orientation of
-    comparisons, operand order and polarity are therefore irrelevant. An operand that cannot be evaluated is not an atom (decide then raises UnknownAtom: inconclusive)."""
-    def atom(n, _env):
+# ------------------------------------------------------------------------------------------------------------------------------------------------------
+# a small statement sequencer over minieval (local helper; a candidate for sa/): straight-line code, if, try/except/else/finally, return, raise, helper calls
+
+class _Signal(Exception):
+    pass
+
+
+class _Return(_Signal):
+    def __init__(self, value):
+        self.value = value
+
+
+class _Jump(_Signal):
+    def __init__(self, kind):
+        self.kind = kind
+
+
+class _StopAt(_Signal):
+    """the anchor statement (the attempt loop) was reached; env is the frame it lives in"""
+
+    def __init__(self, env):
+        self.env = env
+
+
+class _Raised(_Signal):
+    """an exception propagates: cls is the dotted library class of the attempt's outcome (None: an exception the analysed code created itself, `node` is the raise)"""
+
+    def __init__(self, cls, rec, node=None):
+        self.cls, self.rec, self.node = cls, rec, node
+
+
+class _Self(Record):
+    """the wrapper instance: fields are the attributes its constructor sets from its parameters"""
+
+
+class _Coro:
+    """the value of calling an async function: nothing happens until it is awaited"""
+
+    def __init__(self, thunk):
+        self.thunk = thunk
+
+
+_OPAQUE = object()
+_AUG = {ast.Add: operator.add, ast.Sub: operator.sub, ast.Mult: operator.mul}
+_DICT_METHODS = ("pop", "setdefault", "update", "clear", "copy", "popitem")
+
+
+class Interp:
+    def __init__(self, rn, tab, ci, H, delegate_attrs):
+        self.rn, self.tab, self.ci, self.H = rn, tab, ci, H
+        self.delegate_attrs = set(delegate_attrs)
+        self.modfuncs = {n.name: n for n in rn.tree.body if isinstance(n, FUNC_TYPES)}
+        self.globals = {}
+        for nm, tgt in rn.imports.items():
+            if tgt == "sys":
+                self.globals[nm] = Record(maxsize=sys.maxsize)
+            elif tgt == "sys.maxsize":
+                self.globals[nm] = sys.maxsize
+        self.event = None
+        self.stop_node = None
+        self.force = None  # (try node, handler): select this handler whatever is raised (dead-arm tables)
+        self.depth = 0
+        self._n = 0
+        self._hnames = {}
+        self.unknown_classes = []
+        self.reset()
+
+    def reset(self):
+        self.ncalls, self.sleeps, self.effects, self.selected, self.exc_stack = 0, [], [], None, []
+
+    # -- expressions ---------------------------------------------------------------------------------------------------------------------------
+    def bind(self, env, value):
+        self._n += 1
+        nm = f"__h{self._n}"
+        env[nm] = value
+        return ast.Name(id=nm, ctx=ast.Load())
+
+    def full_name(self, f, env):
+        d = dotted(f)
+        if not d:
+            return None
+        head, _, rest = d.partition(".")
+        if head in env:
+            return None
+        base = self.rn.imports.get(head, head)
+        return base + ("." + rest if rest else "")
+
+    def xev(self, e, env):
+        """value of an extracted expression on the representative values in env; calls of helper methods / module functions are followed (arguments bound to parameters),
+        `await` runs the awaited helper / the delegate / the sleep. CannotEval: not decidable here (the caller reports 'not recognised')."""
         try:
-            return bool(mev(n, dict(env)))
+            return mev(e, env)
+        except CannotEval:
+            pass
+        interp = self
+
+        class Sub(ast.NodeTransformer):
+            def visit_Call(self, n):
+                self.generic_visit(n)
+                r = interp.call(n, env)
+                return n if r is None else interp.bind(env, r[0])
+
+            def visit_Await(self, n):
+                self.generic_visit(n)
+                v = n.value
+                if isinstance(v, ast.Name) and v.id.startswith("__h") and isinstance(env.get(v.id), _Coro):
+                    return interp.bind(env, env[v.id].thunk())
+                return n
+
+        c = Sub().visit(source.clone(e))
+        ast.fix_missing_locations(c)
+        return mev(c, env)
+
+    def _attempt(self):
+        self.ncalls += 1
+        if self.event is None:
+            raise CannotEval("the delegate is called outside an attempt")
+        if self.event[0] == "raise":
+            raise _Raised(self.event[1], self.event[2])
+        return self.event[1]
+
+    def call(self, n, env):
+        """(value,) of a call the sequencer interprets itself, None for everything else (left to minieval)"""
+        f = n.func
+        try:
+            if isinstance(f, ast.Attribute) and isinstance(f.value, ast.Name) and isinstance(env.get(f.value.id), _Self):
+                if f.attr in self.delegate_attrs:
+                    return (_Coro(self._attempt),)
+                m = self.tab.method(self.ci, f.attr)
+                return None if m is None else (self.invoke(m, n, env, env[f.value.id]),)
+            if isinstance(f, ast.Attribute) and isinstance(f.value, ast.Name) and f.value.id == self.ci.name and f.value.id not in env:
+                m = self.tab.method(self.ci, f.attr)
+                if m is not None:
+                    return (self.invoke(m, n, env, None if "classmethod" not in decorator_names(m) else next((v for v in env.values() if isinstance(v, _Self)), None)),)
+            if isinstance(f, ast.Name) and f.id not in env:
+                if f.id in self.modfuncs:
+                    return (self.invoke(self.modfuncs[f.id], n, env, None),)
+                if f.id == "dict" and len(n.args) <= 1 and all(k.arg for k in n.keywords):
+                    base = mev(n.args[0], env) if n.args else {}
+                    if isinstance(base, dict):
+                        return ({**base, **{k.arg: mev(k.value, env) for k in n.keywords}},)
+                if f.id == "getattr" and len(n.args) in (2, 3) and not n.keywords:
+                    obj, name = mev(n.args[0], env), mev(n.args[1], env)
+                    if isinstance(obj, Record) and isinstance(name, str):
+                        if name in obj.fields:
+                            return (obj.fields[name],)
+                        if len(n.args) == 3:
+                            return (mev(n.args[2], env),)
+                if f.id == "isinstance" and len(n.args) == 2 and (dotted(n.args[1]) or "").split(".")[-1] in ("Mapping", "MutableMapping"):
+                    return (isinstance(mev(n.args[0], env), dict),)
+            if self.full_name(f, env) == "asyncio.sleep":
+                vals = [mev(a, env) for a in n.args] + [mev(k.value, env) for k in n.keywords]
+                return (_Coro(lambda: self.sleeps.append((vals, n))),)
+            if isinstance(f, ast.Attribute) and f.attr in _DICT_METHODS and not n.keywords:
+                recv = mev(f.value, env)
+                if isinstance(recv, dict):
+                    args = [mev(a, env) for a in n.args]
+                    try:
+                        return (getattr(recv, f.attr)(*args),)
+                    except (KeyError, TypeError, ValueError) as x:
+                        raise CannotEval(f"{u(n)[:60]}: {type(x).__name__}")
         except CannotEval:
             return None
-    return atom
+        return None
+
+    def invoke(self, func, n, env, bound):
+        """interpret a helper: arguments of the call bound to its parameters (defaults for the rest)"""
+        if self.depth >= 5:
+            raise CannotEval("helper nesting")
+        a = func.args
+        pos = [x.arg for x in a.posonlyargs + a.args]
+        frame = dict(self.globals)
+        if bound is not None and "staticmethod" not in decorator_names(func) and pos:
+            frame[pos[0]] = bound
+            pos = pos[1:]
+        if any(isinstance(x, ast.Starred) for x in n.args) or any(k.arg is None for k in n.keywords) or len(n.args) > len(pos):
+            raise CannotEval("star arguments")
+        for p, x in zip(pos, n.args):
+            frame[p] = mev(x, env)
+        kwonly = [x.arg for x in a.kwonlyargs]
+        for k in n.keywords:
+            if k.arg not in pos and k.arg not in kwonly:
+                raise CannotEval(f"keyword {k.arg}")
+            frame[k.arg] = mev(k.value, env)
+        allpos = a.posonlyargs + a.args
+        for p, d in zip(allpos[len(allpos) - len(a.defaults):], a.defaults):
+            if p.arg not in frame:
+                frame[p.arg] = mev(d, dict(self.globals))
+        for p, d in zip(a.kwonlyargs, a.kw_defaults):
+            if d is not None and p.arg not in frame:
+                frame[p.arg] = mev(d, dict(self.globals))
+        if any(p not in frame for p in pos + kwonly):
+            raise CannotEval("unbound parameter")
+
+        def thunk():
+            self.depth += 1
+            try:
+                self.exec_block(func.body, frame)
+                return None
+            except _Return as r:
+                return r.value
+            finally:
+                self.depth -= 1
+
+        return _Coro(thunk) if isinstance(func, ast.AsyncFunctionDef) else thunk()
+
+    # -- statements ----------------------------------------------------------------------------------------------------------------------------
+    def assign(self, t, v, env):
+        if isinstance(t, ast.Name):
+            env[t.id] = v
+        elif isinstance(t, (ast.Tuple, ast.List)):
+            if not isinstance(v, (tuple, list)) or len(v) != len(t.elts) or any(isinstance(x, ast.Starred) for x in t.elts):
+                raise CannotEval(f"unpacking into {u(t)[:40]}")
+            for x, y in zip(t.elts, v):
+                self.assign(x, y, env)
+        elif isinstance(t, ast.Attribute) and isinstance(t.value, ast.Name) and isinstance(env.get(t.value.id), _Self):
+            env[t.value.id].fields[t.attr] = v  # a store on the wrapper (judged by its own obligation): later reads in this call see it
+            self.effects.append(t)
+        elif isinstance(t, ast.Subscript):
+            box = mev(t.value, env)
+            if not isinstance(box, (dict, list)):
+                raise CannotEval(f"store into {u(t)[:40]}")
+            try:
+                box[mev(t.slice, env)] = v
+            except (KeyError, IndexError, TypeError) as x:
+                raise CannotEval(f"{u(t)[:40]}: {type(x).__name__}")
+        else:
+            raise CannotEval(f"assignment target {u(t)[:40]}")
+
+    def exec_block(self, stmts, env):
+        for s in stmts:
+            self.exec_stmt(s, env)
+
+    def exec_stmt(self, s, env):
+        if s is self.stop_node:
+            raise _StopAt(env)
+        if isinstance(s, (ast.Import, ast.ImportFrom, ast.Pass, ast.Global, ast.Nonlocal, ast.Assert) + FUNC_TYPES + (ast.ClassDef,)) or is_logging_stmt(s):
+            return
+        if isinstance(s, ast.Expr):
+            if isinstance(s.value, ast.Constant):
+                return
+            try:
+                self.xev(s.value, env)
+            except CannotEval:
+                self.effects.append(s.value)  # an effect this analysis does not interpret (metrics call, ...): it neither returns nor raises here
+            return
+        if isinstance(s, ast.Assign):
+            try:
+                v = self.xev(s.value, env)
+            except CannotEval:
+                # a value this analysis cannot compute (a tuple of exception classes, an object, ...): the names it is bound to are unknown from here on - only a USE of them is undecidable
+                names = [x for t in s.targets for x in ([t] if isinstance(t, ast.Name) else (t.elts if isinstance(t, (ast.Tuple, ast.List)) else [None]))]
+                if not all(isinstance(x, ast.Name) for x in names):
+                    raise
+                for x in names:
+                    env.pop(x.id, None)
+                return
+            for t in s.targets:
+                self.assign(t, v, env)
+            return
+        if isinstance(s, ast.AnnAssign):
+            if s.value is not None:
+                self.assign(s.target, self.xev(s.value, env), env)
+            return
+        if isinstance(s, ast.AugAssign):
+            if isinstance(s.target, ast.Name) and type(s.op) in _AUG:
+                if s.target.id not in env:
+                    raise CannotEval(f"unbound name {s.target.id}")
+                try:
+                    env[s.target.id] = _AUG[type(s.op)](env[s.target.id], self.xev(s.value, env))
+                except TypeError as x:
+                    raise CannotEval(f"{u(s)[:60]}: {x}")
+                return
+            if isinstance(s.target, ast.Attribute) and isinstance(s.target.value, ast.Name) and isinstance(env.get(s.target.value.id), _Self):
+                rec = env[s.target.value.id]
+                if s.target.attr in rec.fields and type(s.op) in _AUG:
+                    try:
+                        rec.fields[s.target.attr] = _AUG[type(s.op)](rec.fields[s.target.attr], self.xev(s.value, env))
+                    except TypeError as x:
+                        raise CannotEval(f"{u(s)[:60]}: {x}")
+                self.effects.append(s.target)  # e.g. a counter the decision logic never reads
+                return
+            raise CannotEval(f"augmented assignment {u(s)[:60]}")
+        if isinstance(s, ast.If):
+            self.exec_block(s.body if self.xev(s.test, env) else s.orelse, env)
+            return
+        if isinstance(s, ast.Return):
+            raise _Return(self.xev(s.value, env) if s.value is not None else None)
+        if isinstance(s, ast.Raise):
+            cur = self.exc_stack[-1] if self.exc_stack else None
+            if s.exc is None:
+                if cur is None:
+                    raise CannotEval("bare raise outside a handler")
+                raise cur
+            if cur is not None and isinstance(s.exc, ast.Name) and env.get(s.exc.id) is cur.rec:
+                raise cur
+            raise _Raised(None, None, s)
+        if isinstance(s, (ast.Break, ast.Continue)):
+            raise _Jump("break" if isinstance(s, ast.Break) else "continue")
+        if isinstance(s, ast.Try):
+            self.exec_try(s, env)
+            return
+        raise CannotEval(f"statement kind {type(s).__name__} at line {getattr(s, 'lineno', '?')}")
+
+    def hnames(self, h):
+        """dotted class names of an except clause; a name bound once (locally or at module level) to a tuple of classes stands for that tuple"""
+        if id(h) not in self._hnames:
+            t, hh = h.type, h
+            if isinstance(t, ast.Name) and t.id not in self.rn.imports:
+                f = source.enclosing_func(h)
+                d = (local_defs(f).get(t.id) if f is not None else None) or self.rn.module_constant(t.id)
+                if isinstance(d, ast.Tuple):
+                    hh = ast.ExceptHandler(type=d, name=h.name, body=[])
+            names = handler_type_names(hh, module=self.rn)
+            for nm in names:
+                if not self.H.known(nm):
+                    self.unknown_classes.append((nm, h))
+            self._hnames[id(h)] = names
+        return self._hnames[id(h)]
+
+    def exec_try(self, s, env):
+        try:
+            try:
+                self.exec_block(s.body, env)
+            except _Raised as r:
+                if not s.handlers:
+                    raise
+                if r.cls is None:
+                    raise CannotEval("an exception created inside a try with handlers")
+                hit = None
+                forced = self.force is not None and self.force[0] is s
+                for h in s.handlers:
+                    names = self.hnames(h)
+                    if (forced and self.force[1] is h) or (not forced and self.H.catches(names, r.cls)):
+                        hit = (h, names)
+                        break
+                if hit is None:
+                    raise
+                self.selected = hit
+                if hit[0].name:
+                    env[hit[0].name] = r.rec
+                self.exc_stack.append(r)
+                try:
+                    self.exec_block(hit[0].body, env)
+                finally:
+                    self.exc_stack.pop()
+            else:
+                self.exec_block(s.orelse, env)
+        finally:
+            if s.finalbody:
+                self.exec_block(s.finalbody, env)
+
+
+class Out:
+    """outcome of one attempt: kind in retry | return | raise | raise-other | break-out"""
+
+    def __init__(self, kind, value=None, sleeps=(), ncalls=0, selected=None, note=""):
+        self.kind, self.value, self.sleeps, self.ncalls, self.selected, self.note = kind, value, list(sleeps), ncalls, selected, note
+
+    def text(self):
+        t = {"retry": "goes on to the next attempt", "return": "returns", "raise": "re-raises the attempt's exception", "raise-other": "raises a different exception"}.get(self.kind, self.kind)
+        return t + (f" ({self.note})" if self.note else "") + (f" after {len(self.sleeps)} sleep(s)" if self.sleeps else "")
+
+
+def _closure(tab, ci, modfuncs, root):
+    """functions reachable from root through self.m() / Class.m() / module f() calls"""
+    seen, out, work = set(), [], [root]
+    while work:
+        f = work.pop()
+        if id(f) in seen:
+            continue
+        seen.add(id(f))
+        out.append(f)
+        for n in walk_body(f):
+            if isinstance(n, ast.Call):
+                g = None
+                if isinstance(n.func, ast.Attribute) and isinstance(n.func.value, ast.Name) and n.func.value.id in ("self", "cls", ci.name, (params_of(f) or [""])[0]):
+                    g = tab.method(ci, n.func.attr)
+                elif isinstance(n.func, ast.Name):
+                    g = modfuncs.get(n.func.id)
+                if g is not None:
+                    work.append(g)
+    return out
+
+
+def _registrations(rn, reg, fname="register_runner"):
+    """every registration `register_runner(<operation type>, <runner>, ...)` that register_default_runners performs, as (operation type expr, runner expr, site): direct calls, calls in a loop over a
+    literal table (dict.items(), dict keys with table[key], list / tuple of pairs) with the loop variables substituted, and calls made by a local / module-level helper function with its
+    parameters substituted. Second value: what could not be expanded (text, node)."""
+    defs = local_defs(reg)
+    regdef = next((n for n in rn.tree.body if isinstance(n, FUNC_TYPES) and n.name == fname), None)
+    out, unknown = [], []
+
+    def table(e):
+        e = defs.get(e.id, e) if isinstance(e, ast.Name) else e
+        return e
+
+    def rows_of(loop):
+        it, tgt = loop.iter, loop.target
+        if isinstance(it, ast.Call) and isinstance(it.func, ast.Attribute) and it.func.attr == "items" and not it.args:
+            d = table(it.func.value)
+            if isinstance(d, ast.Dict) and all(k is not None for k in d.keys) and isinstance(tgt, ast.Tuple) and len(tgt.elts) == 2 and all(isinstance(x, ast.Name) for x in tgt.elts):
+                return [{tgt.elts[0].id: k, tgt.elts[1].id: v} for k, v in zip(d.keys, d.values)]
+            return None
+        if isinstance(it, ast.Call) and dotted(it.func) in ("list", "tuple", "sorted", "iter") and len(it.args) == 1:
+            it = it.args[0]
+        d = table(it)
+        if isinstance(d, ast.Dict) and all(k is not None for k in d.keys) and isinstance(tgt, ast.Name):
+            return [{tgt.id: k} for k in d.keys]
+        if isinstance(d, (ast.List, ast.Tuple, ast.Set)):
+            if isinstance(tgt, ast.Name):
+                return [{tgt.id: e} for e in d.elts]
+            if isinstance(tgt, ast.Tuple) and all(isinstance(x, ast.Name) for x in tgt.elts) and all(isinstance(e, (ast.Tuple, ast.List)) and len(e.elts) == len(tgt.elts) for e in d.elts):
+                return [{x.id: y for x, y in zip(tgt.elts, e.elts)} for e in d.elts]
+        return None
+
+    def lookup(e):
+        """table[key] with a literal table -> the entry"""
+
+        class T(ast.NodeTransformer):
+            def visit_Subscript(self, n):
+                self.generic_visit(n)
+                d = defs.get(n.value.id) if isinstance(n.value, ast.Name) else n.value
+                if isinstance(d, ast.Dict):
+                    for k, v in zip(d.keys, d.values):
+                        if k is not None and u(k) == u(n.slice):
+                            return source.clone(v)
+                return n
+
+        return T().visit(e)
+
+    def expand(c, binds, site, depth=0):
+        """c: a call (original node); binds: name -> expr for the names bound around it"""
+        loops = []
+        a = source.parent(c)
+        scope = source.enclosing_func(c)
+        while a is not None and a is not scope:
+            if isinstance(a, (ast.For, ast.AsyncFor)):
+                loops.append(a)
+            elif isinstance(a, (ast.While, ast.Try, ast.With, ast.If, ast.Lambda, ast.ListComp, ast.GeneratorExp, ast.DictComp, ast.SetComp)):
+                unknown.append((f"registration under a {type(a).__name__}", c))
+                return
+            a = source.parent(a)
+        envs = [dict(binds)]
+        for lp in reversed(loops):
+            rows = rows_of(lp)
+            if rows is None:
+                unknown.append((f"registration loop over `{short(lp.iter, 50)}` is not a loop over a literal table", lp))
+                return
+            envs = [{**e, **r} for e in envs for r in rows]
+        for e in envs:
+            sub = {**{k: v for k, v in defs.items() if scope is reg}, **e}
+            args = [lookup(source.inline_node(x, sub)) for x in c.args]
+            kws = {k.arg: lookup(source.inline_node(k.value, sub)) for k in c.keywords if k.arg}
+            name = last_attr(c.func)
+            if name == fname:
+                names = params_of(regdef) if regdef is not None else ["operation_type", "runner"]
+                got = dict(zip(names, args))
+                got.update({k: v for k, v in kws.items() if k in names})
+                if len(names) >= 2 and names[0] in got and names[1] in got:
+                    out.append((got[names[0]], got[names[1]], site or c))
+                else:
+                    unknown.append(("registration call without operation type and runner", c))
+            else:
+                helper = helpers.get(name)
+                if helper is None or depth >= 2:
+                    continue
+                hb = source.bind_args(ast.Call(func=c.func, args=args, keywords=[ast.keyword(arg=k, value=v) for k, v in kws.items()]), helper, skip_self=False)
+                a_ = helper.args
+                allpos = a_.posonlyargs + a_.args
+                for p, d in zip(allpos[len(allpos) - len(a_.defaults):], a_.defaults):
+                    hb.setdefault(p.arg, d)
+                for inner in source.calls_in(helper, local=True):
+                    if last_attr(inner.func) == fname or last_attr(inner.func) in helpers:
+                        expand(inner, hb, site or c, depth + 1)
+
+    # helper functions that register: nested in register_default_runners or at module level, called from it
+    cands = {n.name: n for n in list(rn.tree.body) + list(reg.body) if isinstance(n, FUNC_TYPES) and n is not reg and n.name != fname}
+    helpers = {nm: f for nm, f in cands.items() if any(last_attr(c.func) == fname for c in source.calls_in(f, local=True))}
+    for c in source.calls_in(reg, local=True):
+        if isinstance(c.func, (ast.Name, ast.Attribute)) and (last_attr(c.func) == fname or (isinstance(c.func, ast.Name) and c.func.id in helpers)):
+            expand(c, {}, None)
+    return out, unknown
 
 
 def run(chk):
@@ -57,111 +532,352 @@ def run(chk):
     H = Hierarchy()
     chk.trusted.append("library exception hierarchy parsed from " + ", ".join(sorted(__import__('os').path.basename(p) for p in H.files)))
     chk.explanation = (
-        "Decides the attempt loop of the retry wrapper as a decision table: for each outcome class of one attempt (12 exception classes placed in the real, parsed library "
-        "hierarchy, and 4 kinds of return value) and each combination of (last attempt, retry-on-timeout, retry-on-error) the handler that Python would select is located and "
-        "abstractly interpreted; the outcome (retry with sleep / raise / return) must equal the documented classification. Also the attempt bound (range(retries+1), "
-        "last == attempt+1 == max) and parameter defaults."
+        "Decides the attempt loop of the retry wrapper as a decision table evaluated end to end on representative values: the wrapper's code up to the attempt loop (helper methods followed, "
+        "arguments bound to parameters) is interpreted for representative parameter dicts and constructor flags, then one iteration of the loop body for each outcome class of one attempt "
+        "(12 exception classes placed in the real, parsed library hierarchy, and 5 kinds of return value) at a non-last and at the last attempt under each combination of "
+        "(retry-on-timeout, retry-on-error); the handler that Python would select is located through the hierarchy; the outcome (next attempt after one awaited sleep of the configured period / "
+        "the attempt's own exception / the attempt's own result) must equal the documented classification. Also the attempt bound (retries + 1 iterations, unbounded with retry-on-error forced "
+        "under retry-until-success), the parameter defaults, that the caller's parameter dict and the shared wrapper are left alone, which operations are wrapped and that their parameter "
+        "sources hand the retry settings on."
     )
     chk.not_decided = "timing of sleeps, behaviour of the delegate, operations wrapped by plugins."
     R = rn.cls("Retry")
     call = rn.methods(R).get("__call__")
     if call is None:
         raise AnchorMissing("Retry.__call__")
-    loops = [n for n in walk_body(call) if isinstance(n, ast.For)]
-    if not loops:
-        raise AnchorMissing("attempt loop in Retry.__call__")
-    L = loops[0]
-    trys = [n for n in L.body if isinstance(n, ast.Try)]
-    if not trys:
-        raise AnchorMissing("try in the attempt loop")
-    T = trys[0]
-    defs = {}
-    for n in walk_body(call):
-        if isinstance(n, ast.Assign) and len(n.targets) == 1 and isinstance(n.targets[0], ast.Name):
-            defs.setdefault(n.targets[0].id, []).append(n)
-    # roles by data flow: the parameter dict is the last parameter of __call__(self, es, params); a local's role is the documented key it is read from
+    tab = ClassTable(repo, [_R])
+    ci = next((c for c in tab.by_name.get("Retry", []) if c.node is R), None)
+    if ci is None:
+        raise AnchorMissing("class Retry")
     pnames = params_of(call)
     if len(pnames) < 3:
         raise AnchorMissing("Retry.__call__(self, es, params): the parameter dict")
-    pv = pnames[-1]
+    pv = pnames[-1]  # the parameter dict is the last parameter of __call__(self, es, params)
 
-    def param_key(e):
-        """K if e is `params.get(K[, default])`"""
-        if isinstance(e, ast.Call) and isinstance(e.func, ast.Attribute) and e.func.attr == "get" and isinstance(e.func.value, ast.Name) and e.func.value.id == pv and e.args \
-                and isinstance(e.args[0], ast.Constant) and isinstance(e.args[0].value, str):
-            return e.args[0].value
+    # roles by data flow: attributes a constructor in the MRO sets from one of its parameters; the delegate is the one of them that is CALLED, the others are constructor settings
+    ctor_attr = {}  # attr -> (class, parameter, default expr or None)
+    for c in tab.mro(ci):
+        init = c.methods.get("__init__")
+        if init is None:
+            continue
+        a = init.args
+        allpos = a.posonlyargs + a.args
+        dflt = {p.arg: d for p, d in zip(allpos[len(allpos) - len(a.defaults):], a.defaults)}
+        dflt.update({p.arg: d for p, d in zip(a.kwonlyargs, a.kw_defaults) if d is not None})
+        for n in walk_body(init):
+            if isinstance(n, ast.Assign) and len(n.targets) == 1 and source.is_self_attr(n.targets[0]) and isinstance(n.value, ast.Name) and n.value.id in [x.arg for x in allpos + a.kwonlyargs]:
+                ctor_attr.setdefault(n.targets[0].attr, (c, n.value.id, dflt.get(n.value.id)))
+    modfuncs = {n.name: n for n in rn.tree.body if isinstance(n, FUNC_TYPES)}
+    closure = _closure(tab, ci, modfuncs, call)
+
+    def self_name(f):
+        return (params_of(f) or [None])[0] if "staticmethod" not in decorator_names(f) else None
+
+    called = {n.func.attr for f in closure for n in walk_body(f) if isinstance(n, ast.Call) and isinstance(n.func, ast.Attribute) and isinstance(n.func.value, ast.Name)
+              and n.func.value.id == self_name(f) and n.func.attr in ctor_attr}
+    if not called:
+        raise AnchorMissing("call of the delegate (an attribute the constructor sets from a parameter) in Retry.__call__ or its helpers")
+    sites = [n for f in closure for n in walk_body(f) if isinstance(n, ast.Call) and isinstance(n.func, ast.Attribute) and isinstance(n.func.value, ast.Name)
+             and n.func.value.id == self_name(f) and n.func.attr in called]
+    settings = {}
+    for attr, (c, p, d) in ctor_attr.items():
+        if attr not in called and d is not None:
+            try:
+                settings[attr] = mev(d, {})
+            except CannotEval:
+                pass
+
+    # the attempt loop: the outermost loop around the delegate call (through helper calls)
+    def callers_of(f):
+        return [n for g in closure for n in walk_body(g) if isinstance(n, ast.Call) and ((isinstance(n.func, ast.Attribute) and isinstance(n.func.value, ast.Name)
+                and n.func.value.id in ("self", "cls", ci.name, self_name(g)) and tab.method(ci, n.func.attr) is f) or (isinstance(n.func, ast.Name) and modfuncs.get(n.func.id) is f))]
+
+    def find_loop(node, depth=0):
+        f = source.enclosing_func(node)
+        loops = [a for a in source.ancestors(node) if isinstance(a, (ast.For, ast.While, ast.AsyncFor)) and source.enclosing_func(a) is f]
+        if loops:
+            return loops[-1]
+        if depth < 4 and f is not None and f is not call:
+            for c in callers_of(f):
+                lp = find_loop(c, depth + 1)
+                if lp is not None:
+                    return lp
         return None
 
-    role = {}  # documented key -> the local that carries the value read under that key
-    for nm, ds in defs.items():
-        for d in ds:
-            for x in ast.walk(d.value):
-                k = param_key(x)
-                if k is not None:
-                    role.setdefault(k, nm)
-    rusv, roev, rotv, sleepv = role.get("retry-until-success"), role.get("retry-on-error"), role.get("retry-on-timeout"), role.get("retry-wait-period")
+    L = next((lp for lp in (find_loop(s_) for s_ in sites) if lp is not None), None)
+    if L is None:
+        raise AnchorMissing("attempt loop around the delegate call")
+    if not (isinstance(L, ast.For) and isinstance(L.iter, ast.Call) and isinstance(L.iter.func, ast.Name) and L.iter.func.id == "range" and 1 <= len(L.iter.args) <= 3
+            and not L.iter.keywords and isinstance(L.target, ast.Name)):
+        raise AnchorMissing(f"the attempt loop is not `for <counter> in range(...)`: {short(L, 60)}")
+    FL = source.enclosing_func(L)
+    if FL is not call:
+        # the loop lives in a helper: its result must be what __call__ returns
+        cs = callers_of(FL)
+        for c in cs:
+            st = source.enclosing_stmt(c)
+            if not (source.enclosing_func(c) is call and isinstance(st, ast.Return) and (st.value is c or (isinstance(st.value, ast.Await) and st.value.value is c))
+                    and not any(isinstance(a, (ast.Try, ast.For, ast.While, ast.With, ast.AsyncWith)) for a in source.ancestors(c) if source.enclosing_func(a) is call or a is call)):
+                raise AnchorMissing("the attempt loop lives in a helper whose result is not returned directly by Retry.__call__")
+        if not cs:
+            raise AnchorMissing("caller of the helper with the attempt loop")
+    holder = source.parent(L)
+    block = next((b for b in (getattr(holder, fld, None) for fld in ("body", "orelse", "finalbody")) if isinstance(b, list) and any(x is L for x in b)), None)
+    if block is None or not any(x is L for x in source.flat(FL.body)):
+        raise AnchorMissing("the attempt loop is nested in another statement")
+    tail = block[[i for i, x in enumerate(block) if x is L][0] + 1:]
 
-    def attempt_env(last):
-        """representative values for one attempt: the last-attempt flag and (for tests that recompute it) the attempt counter and the bound"""
-        env = {lastv: last}
-        if av and mv and av != mv:
-            env.update({av: 2 if last else 0, mv: 3})
-        return env
+    def contains_delegate(node, depth=0):
+        for n in ast.walk(node):
+            if any(n is s_ for s_ in sites):
+                return True
+            if isinstance(n, ast.Call) and depth < 4:
+                g = None
+                if isinstance(n.func, ast.Attribute) and isinstance(n.func.value, ast.Name) and n.func.value.id in ("self", "cls", ci.name):
+                    g = tab.method(ci, n.func.attr)
+                elif isinstance(n.func, ast.Name):
+                    g = modfuncs.get(n.func.id)
+                if g is not None and g in closure and any(contains_delegate(st, depth + 1) for st in g.body):
+                    return True
+        return False
 
-    def carries(e, key, var):
-        """e is the local carrying the value of `key`, or reads it directly"""
-        return (isinstance(e, ast.Name) and var is not None and e.id == var) or param_key(e) == key
+    trys = [n for f in closure for n in walk_body(f) if isinstance(n, ast.Try) and n.handlers and any(contains_delegate(st) for st in n.body)]
+    trys = [t for t in trys if any(a is L for a in source.ancestors(t)) or source.enclosing_func(t) is not FL]
+    if not trys:
+        raise AnchorMissing("try around the delegate call in the attempt loop")
+    T = trys[-1] if len(trys) > 1 and all(any(a is trys[0] for a in source.ancestors(t)) for t in trys[1:]) else trys[0]  # the innermost of nested ones
 
-    def under_rus(n):
-        """some guard fact of n (polarity-insensitive view of the enclosing tests) is the retry-until-success value itself"""
-        return any(carries(f, "retry-until-success", rusv) or (isinstance(f, ast.Attribute) and f.attr == "retry_until_success") for f in fact_nodes(n, stop=call))
+    interp = Interp(rn, tab, ci, H, called)
+    for h in T.handlers:
+        interp.hnames(h)
+
+    # ---- worlds: the wrapper's own code up to the attempt loop, on representative parameters ----------------------------------------------------
+    class World:
+        pass
+
+    worlds = {}
+
+    def world(params, ctor=None):
+        """the frame at the attempt loop for this parameter dict and these constructor settings (attr -> value)"""
+        k = (repr(sorted(params.items())), repr(sorted((ctor or {}).items())))
+        if k in worlds:
+            return worlds[k]
+        w = World()
+        w.before, w.params = dict(params), dict(params)
+        w.rec = _Self(**{**settings, **(ctor or {})})
+        env = {**interp.globals, pnames[0]: w.rec, **{p: _OPAQUE for p in pnames[1:-1]}, pv: w.params}
+        interp.reset()
+        interp.event, interp.stop_node, interp.force = None, L, None
+        try:
+            interp.exec_block(call.body, env)
+        except _StopAt as s_:
+            w.env = s_.env
+        except _Signal as s_:
+            raise CannotEval(f"the attempt loop is not reached for params={params}: {type(s_).__name__[1:].lower()}")
+        else:
+            raise CannotEval(f"the attempt loop is not reached for params={params}")
+        finally:
+            interp.stop_node = None
+        args = [interp.xev(a, w.env) for a in L.iter.args]
+        if not all(isinstance(a, int) and not isinstance(a, bool) for a in args):
+            raise CannotEval(f"range arguments {args}")
+        w.r = range(*args) if not (len(args) == 3 and args[2] <= 0) else None
+        if w.r is None:
+            raise CannotEval("descending attempt counter")
+        w.n = max(0, -(-(w.r.stop - w.r.start) // w.r.step))
+        w.unbounded = w.n >= sys.maxsize // 2  # sys.maxsize attempts, give or take an off-by-one that the bound obligation reports
+        worlds[k] = w
+        return w
+
+    observed_calls = []
+
+    def attempt(w, pos, event, force=None):
+        """outcome of the attempt at iteration index pos of world w when the delegate produces `event`"""
+        if not 0 <= pos < w.n:
+            raise CannotEval(f"no attempt number {pos + 1}")
+        interp.reset()
+        interp.event, interp.force = event, force
+        env = dict(w.env)
+        env[L.target.id] = w.r[pos]
+        final = not w.unbounded and pos == w.n - 1
+        kept = dict(w.rec.fields)
+
+        def run_(stmts):
+            try:
+                interp.exec_block(stmts, env)
+                return Out("fall")
+            except _Jump as j:
+                return Out("break-out" if j.kind == "break" else "retry")
+            except _Return as r_:
+                return Out("return", r_.value)
+            except _Raised as r_:
+                return Out("raise" if r_.cls is not None else "raise-other")
+
+        try:
+            o = run_(L.body)
+            if o.kind == "fall":
+                o = Out("retry")
+            if o.kind == "break-out" or (o.kind == "retry" and final):
+                note = "leaves the loop" if o.kind == "break-out" else "falls out of the loop after the last attempt"
+                o = run_((list(L.orelse) if o.kind == "retry" else []) + tail)
+                if o.kind in ("fall", "retry", "break-out"):
+                    o = Out("return", None)
+                o.note = note
+        finally:
+            w.rec.fields.clear()
+            w.rec.fields.update(kept)
+        o.sleeps, o.ncalls, o.selected = list(interp.sleeps), interp.ncalls, interp.selected
+        if force is None:
+            observed_calls.append(o.ncalls)
+        return o
+
+    WAIT = 7.25
+
+    def P(rot=None, roe=None, retries=2, rus=None, wait=WAIT):
+        d = {"retries": retries, "retry-on-timeout": rot, "retry-on-error": roe, "retry-until-success": rus, "retry-wait-period": wait}
+        return {k: v for k, v in d.items() if v is not None}
+
+    def exc_event(cls, status):
+        return ("raise", cls, Record(status_code=status, status=status, meta=Record(status=status)))
+
+    CE = ("connection error", "elasticsearch.ConnectionError", None)
+
+    def failed():
+        return {"success": False, "weight": 1}
+
+    def positions(w, last):
+        if w.n == 0:
+            raise CannotEval("no attempt at all")
+        if last:
+            return [w.n - 1]
+        return sorted({0, max(0, w.n - 2)}) if w.n >= 2 else []
+
+    # the constructor setting that stands for retry-until-success: the one that makes the loop unbounded
+    flag = None
+    try:
+        for attr, dv in settings.items():
+            if dv is False and world({"retries": 0}, {attr: True}).unbounded:
+                flag = attr
+    except CannotEval as e:
+        raise AnchorMissing(f"Retry.__call__ up to the attempt loop is not evaluable on representative parameters: {e}")
+    if flag is None:
+        raise AnchorMissing("constructor setting of Retry that turns on retry-until-success")
 
     # ---- O16.1 attempt bound ----------------------------------------------------------------------------------------------------------------
-    chk.rule("O16.1", "loop is range(max_attempts); max_attempts == retries + 1 (unbounded with retry-on-error forced under retry-until-success); "
-             "last == attempt + 1 == max_attempts; documented parameter defaults", 7,
+    chk.rule("O16.1", "the attempt loop is a counted loop of retries + 1 iterations (unbounded, with retry-on-error forced, under retry-until-success); only the final iteration is treated as "
+             "the last attempt; documented parameter defaults; the delegate runs once per iteration; neither the shared wrapper nor the caller's parameter dict keeps anything of the call", 7,
              "one attempt too many/few; the last attempt's failure swallowed (loop falls out returning None)")
-    ok = isinstance(L.iter, ast.Call) and dotted(L.iter.func) == "range" and len(L.iter.args) == 1 and isinstance(L.iter.args[0], ast.Name)
-    mv = L.iter.args[0].id if ok else None
-    chk.ob("O16.1", "for attempt in range(max_attempts)", ok, L, u(L.iter))
-    av = L.target.id if isinstance(L.target, ast.Name) else None
-    mdefs = defs.get(mv, []) if mv else []
-    bounded = [d for d in mdefs if not (dotted(d.value) == "sys.maxsize")]
-    unb = [d for d in mdefs if dotted(d.value) == "sys.maxsize"]
-    ok = len(bounded) == 1 and rat_equal(bounded[0].value, parse_expr("params.get('retries', 0) + 1"))
-    chk.ob("O16.1", "max_attempts == retries + 1 (default 0 retries)", ok, bounded[0] if bounded else call, short(bounded[0], 70) if bounded else "")
-    ok = len(unb) == 1 and under_rus(unb[0])
-    chk.ob("O16.1", "unbounded only under retry-until-success", ok, unb[0] if unb else call, "")
-    roe = defs.get(roev, []) if roev else []
-    forced = [d for d in roe if source.is_const(d.value, True)]
-    ok = len(forced) == 1 and bool(unb) and (under_rus(forced[0]) or (guards(forced[0]) and guards(unb[0]) and guards(forced[0])[0][0] is guards(unb[0])[0][0] and guards(forced[0])[0][1] == guards(unb[0])[0][1]))
-    chk.ob("O16.1", "retry-on-error forced under retry-until-success", bool(ok), forced[0] if forced else call, "")
-    for key, dflt in (("retry-on-error", False), ("retry-wait-period", 0.5), ("retry-on-timeout", True)):
-        ds = [d for d in defs.get(role.get(key), []) if isinstance(d.value, ast.Call) and last_attr(d.value.func) == "get"]
-        ok = len(ds) == 1 and param_key(ds[0].value) == key and len(ds[0].value.args) == 2 and isinstance(ds[0].value.args[1], ast.Constant) and ds[0].value.args[1].value == dflt \
-            and type(ds[0].value.args[1].value) is type(dflt)
-        chk.ob("O16.1", f"{key} read with default {dflt}", ok, ds[0] if ds else call, short(ds[0], 70) if ds else "")
-    la = [n for n in L.body if isinstance(n, ast.Assign) and isinstance(n.targets[0], ast.Name)]
-    lastv = None
-    ok = False
-    for n in la:
-        if isinstance(n.value, ast.Compare) and len(n.value.ops) == 1 and isinstance(n.value.ops[0], ast.Eq):
-            l, r = n.value.left, n.value.comparators[0]
-            if (rat_equal(l, parse_expr(f"{av} + 1")) and u(r) == mv) or (rat_equal(r, parse_expr(f"{av} + 1")) and u(l) == mv) or \
-                    (rat_equal(ast.BinOp(left=l, op=ast.Sub(), right=r), parse_expr(f"{av} + 1 - {mv}"))):
-                lastv = n.targets[0].id
-                ok = T in L.body and L.body.index(n) < L.body.index(T)
-    chk.ob("O16.1", "last == (attempt + 1 == max_attempts), computed before the attempt", ok, la[0] if la else L, "")
-    if lastv is None:
-        raise AnchorMissing("last-attempt flag in the attempt loop")
-    dcalls = [n for n in ast.walk(L) if isinstance(n, ast.Call) and u(n.func) == "self.delegate"]
-    ok = len(dcalls) == 1 and any(dcalls[0] in list(ast.walk(s)) for s in T.body)
-    chk.ob("O16.1", "the delegate is called exactly once per attempt, inside the try", ok, dcalls[0] if dcalls else L, f"{len(dcalls)} call(s)")
 
-    # the wrapper is shared by all tasks of an operation type: per-call parameters must not stick to it
-    stores = [n for n in walk_body(call) if isinstance(n, (ast.Assign, ast.AugAssign, ast.AnnAssign)) and
-              any(isinstance(t, ast.Attribute) and isinstance(t.value, ast.Name) and t.value.id == "self" for t in (n.targets if isinstance(n, ast.Assign) else [n.target]))]
+    def decided(rule, instance, node, fn, key=None):
+        """fn() -> (ok, detail); an expression that cannot be evaluated is 'not recognised', never a verdict"""
+        try:
+            ok, detail = fn()
+        except CannotEval as e:
+            chk.unknown(rule, f"{instance}: not evaluable on representative values ({e})", node)
+            return None
+        chk.ob(rule, instance, ok, node, detail, **({"key": key} if key else {}))
+        return ok
+
+    bound_names = {n.id for a in L.iter.args for n in ast.walk(a) if isinstance(n, ast.Name)} | {L.target.id}
+    rebound = [n for st in L.body for n in ast.walk(st) if isinstance(n, ast.Name) and isinstance(n.ctx, (ast.Store, ast.Del)) and n.id in bound_names]
+    chk.ob("O16.1", "for attempt in range(...): the counter and the bound are not re-bound inside the loop", not rebound, rebound[0] if rebound else L,
+           u(L.iter) + (f"; `{rebound[0].id}` is assigned in the loop body" if rebound else ""))
+
+    def ob_bound():
+        bad = []
+        for params, ctor, want in [({}, None, 1), ({"retries": 0}, None, 1), ({"retries": 1}, None, 2), ({"retries": 5}, None, 6), ({"retries": 3, "retry-until-success": False}, None, 4),
+                                   ({"retries": 3, "retry-until-success": False}, {flag: True}, 4)]:
+            w = world(params, ctor)
+            if w.n != want:
+                bad.append(f"{params}{' on a retry-until-success wrapper' if ctor else ''}: {'unbounded' if w.unbounded else w.n} attempt(s), expected {want}")
+        return not bad, "; ".join(bad[:2]) or f"range({', '.join(u(a) for a in L.iter.args)}) has retries + 1 elements for retries in (default, 0, 1, 3, 5)"
+
+    decided("O16.1", "max_attempts == retries + 1 (default 0 retries)", L, ob_bound)
+
+    def ob_unbounded():
+        bad = []
+        for params, ctor in [({"retry-until-success": True}, None), ({"retry-until-success": True, "retries": 0}, None), ({"retry-until-success": True, "retries": 3}, None),
+                             ({}, {flag: True}), ({"retries": 2}, {flag: True})]:
+            w = world(params, ctor)
+            if not w.unbounded:
+                bad.append(f"{params}{' on a retry-until-success wrapper' if ctor else ''}: {w.n} attempt(s), expected no bound")
+        for params, ctor in [({"retries": 2}, None), ({"retries": 2, "retry-until-success": False}, {flag: True}), ({"retries": 2, "retry-on-error": True}, None)]:
+            w = world(params, ctor)
+            if w.unbounded:
+                bad.append(f"{params}{' on a retry-until-success wrapper' if ctor else ''}: unbounded although retry-until-success is off")
+        return not bad, "; ".join(bad[:2])
+
+    decided("O16.1", "unbounded only under retry-until-success", L, ob_unbounded)
+
+    def ob_forced():
+        bad = []
+        for params, ctor in [({"retry-until-success": True, "retry-on-error": False, "retry-wait-period": WAIT}, None), ({"retry-until-success": True, "retry-wait-period": WAIT}, None),
+                             ({"retry-on-error": False, "retry-wait-period": WAIT}, {flag: True}), ({"retry-wait-period": WAIT}, {flag: True})]:
+            w = world(params, ctor)
+            for pos in [p_ for p_ in (0, 1) if p_ < w.n - (0 if w.unbounded else 1)]:  # (a bounded loop here is reported by the obligation above)
+                o = attempt(w, pos, ("return", failed()))
+                if o.kind != "retry":
+                    bad.append(f"{params}{' on a retry-until-success wrapper' if ctor else ''}: an unsuccessful result {o.text()}, expected another attempt")
+        return not bad, "; ".join(bad[:2])
+
+    decided("O16.1", "retry-on-error forced under retry-until-success", L, ob_forced)
+
+    def ob_default_roe():
+        o = attempt(world(P(roe=None)), 0, ("return", failed()))
+        return o.kind == "return", f"retry-on-error absent: an unsuccessful result {o.text()}; expected: returned (default False)"
+
+    def ob_default_wait():
+        bad = []
+        for wait, want in ((None, 0.5), (0, 0), (0.0, 0.0), (3, 3)):
+            for ev_ in (("return", failed()), exc_event(CE[1], CE[2])):
+                o = attempt(world(P(rot=True, roe=True, wait=wait)), 0, ev_)
+                got = [s_[0] for s_ in o.sleeps]
+                if o.kind != "retry" or got != [[want]]:
+                    bad.append(f"retry-wait-period {'absent' if wait is None else wait!r}: {o.text()} with sleep arguments {got}, expected one sleep({want!r})")
+        return not bad, "; ".join(bad[:2])
+
+    def ob_default_rot():
+        bad = []
+        for label, cls, status, retryable in RAISED:
+            if retryable:
+                o = attempt(world(P(rot=None)), 0, exc_event(cls, status))
+                if o.kind != "retry":
+                    bad.append(f"retry-on-timeout absent: {label} {o.text()}; expected another attempt (default True)")
+        return not bad, "; ".join(bad[:2])
+
+    for key_, dflt, fn in (("retry-on-error", False, ob_default_roe), ("retry-wait-period", 0.5, ob_default_wait), ("retry-on-timeout", True, ob_default_rot)):
+        decided("O16.1", f"{key_} read with default {dflt}", L, fn)
+
+    def ob_last():
+        bad = []
+        for retries in (2, 0, 1):
+            w = world(P(rot=True, roe=True, retries=retries))
+            if w.n == 0:
+                return False, f"retries={retries}: no attempt at all"
+            for pos in range(min(w.n, 4)):
+                final = pos == w.n - 1
+                for what, ev_, end in (("a connection error", exc_event(CE[1], CE[2]), "raise"), ("an unsuccessful result", ("return", failed()), "return")):
+                    o = attempt(w, pos, ev_)
+                    want = end if final else "retry"
+                    if o.kind != want or (want == "return" and o.value is not ev_[1]):
+                        bad.append(f"retries={retries}, attempt {pos + 1} of {w.n}: {what} {o.text()}; expected {'its own outcome' if final else 'another attempt'}")
+        return not bad, "; ".join(bad[:2])
+
+    decided("O16.1", "last == (attempt + 1 == max_attempts), computed before the attempt", L, ob_last)
+
+    # the wrapper is shared by all tasks of an operation type: per-call parameters must not stick to it (an attribute that the call writes AND reads carries one call's value into the next)
+    def attr_nodes(ctx):
+        out = []
+        for f in closure:
+            sn = self_name(f)
+            logs = {id(x) for st in walk_body(f) if isinstance(st, ast.stmt) and is_logging_stmt(st) for x in ast.walk(st)}
+            out += [n for n in walk_body(f) if isinstance(n, ast.Attribute) and isinstance(n.ctx, ctx) and isinstance(n.value, ast.Name) and n.value.id == sn and id(n) not in logs]
+        return out
+
+    reads = {n.attr for n in attr_nodes(ast.Load)}
+    stores = [n for n in attr_nodes((ast.Store, ast.Del)) if n.attr in reads]
     chk.ob("O16.1", "the call stores nothing on the (shared) wrapper", not stores, stores[0] if stores else call,
-           "" if not stores else f"{short(stores[0], 70)}: one task's retry parameters leak into later tasks using the same wrapper")
+           "" if not stores else f"{short(source.enclosing_stmt(stores[0]), 70)}: one task's retry parameters leak into later tasks using the same wrapper")
 
     # ---- O16.2 / O16.3 outcome classification ------------------------------------------------------------------------------------------------------
     chk.rule("O16.2", "outcome classification per attempt: retry only for {socket timeout, connection error, connection timeout, HTTP 408} under retry-on-timeout and not last, and for a dict "
@@ -169,177 +885,195 @@ def run(chk):
              "the last attempt returns/raises exactly its own outcome", 60,
              "a non-retryable error is retried/swallowed, a retryable one is not retried, or the last attempt's outcome is replaced")
     chk.rule("O16.3", "every retry path awaits sleep(retry-wait-period) before the next attempt", 5, "retries hammer the cluster without waiting")
-    mod_imports = dict(rn.imports)
-    handlers = []
-    for h in T.handlers:
-        names = handler_type_names(h)
-        handlers.append((h, names))
-        for nm in names:
-            if not H.known(nm):
-                chk.unknown("O16.2", f"handler names class {nm} that is not in the parsed library hierarchy", h)
+    for nm, h in interp.unknown_classes:
+        chk.unknown("O16.2", f"handler names class {nm} that is not in the parsed library hierarchy", h)
 
-    def select(raised):
-        for h, names in handlers:
-            if H.catches(names, raised):
-                return h, names
-        return None, None
+    def sleeps_ok(outs):
+        return all(len(o.sleeps) == 1 and o.sleeps[0][0] == [WAIT] for o in outs)
 
-    def classify_outcome(out):
-        sleeps = [e for e in out.effects if is_sleep(e)]
-        if out.kind == "raise":
-            return "raise", sleeps
-        if out.kind == "return":
-            return "return", sleeps
-        if out.kind in ("fallthrough", "continue"):
-            return "retry", sleeps
-        return out.kind, sleeps
+    def hname(sel):
+        return f"selected handler `except {', '.join(sel[1])}`" if sel else "no handler matches: propagates"
 
     for label, cls, status, retryable in RAISED:
-        h, names = select(cls)
         for last, rot in itertools.product([False, True], repeat=2):
             want = "retry" if (retryable and rot and not last) else "raise"
             inst = f"{label} | last={last} retry-on-timeout={rot}"
-            if h is None:
-                got, sleeps = "raise", []
-                detail = "no handler matches: propagates"
-            else:
-                # the tests of the selected handler are evaluated on representative values: the last-attempt flag, the retry-on-timeout value and the caught exception's status code
-                atom = value_atom({**attempt_env(last), **({rotv: rot} if rotv else {}), **({h.name: Record(status_code=status)} if h.name else {})})
-
-                try:
-                    out = decide(h.body, atom, {})
-                except (Unsupported, UnknownAtom) as e:
-                    chk.unknown("O16.2", f"handler `except {', '.join(names)}` is not a decision over (last, retry-on-timeout, status==408): {e}", h)
-                    continue
-                got, sleeps = classify_outcome(out)
-                detail = f"selected handler `except {', '.join(names)}` -> {out.text()}"
-            chk.ob("O16.2", inst, got == want, h if h is not None else T, f"{detail}; expected {want}", key=f"{_R}:Retry.__call__:{label}|{last}|{rot}")
-            if got == "retry":
-                ok = len(sleeps) == 1 and bool(sleeps[0].value.args) and carries(sleeps[0].value.args[0], "retry-wait-period", sleepv)
-                chk.ob("O16.3", f"sleep before retrying after {label}", ok, h, "awaits sleep(<retry-wait-period>)" if ok else "retries without awaiting the retry-wait-period", key=f"{_R}:Retry.__call__:sleep:{label}|{last}|{rot}")
-    # return outcomes
-    body = [s_ for s_ in T.body if not is_logging_stmt(s_)]
-    rv = None
-    if body and isinstance(body[0], ast.Assign) and isinstance(body[0].value, ast.Await) and dcalls and body[0].value.value is dcalls[0] and isinstance(body[0].targets[0], ast.Name):
-        rv = body[0].targets[0].id
-    if rv is None:
-        raise AnchorMissing("`return_value = await self.delegate(...)` as first statement of the try")
-    # representative results of the delegate: (label, value, is dict, success)
+            try:
+                # evaluated at every non-last (resp. at the last) attempt of a three-attempt call, whatever retry-on-error says
+                outs = [attempt(w, pos, exc_event(cls, status)) for roe in (False, True) for w in [world(P(rot=rot, roe=roe))] for pos in positions(w, last)]
+            except CannotEval as e:
+                chk.unknown("O16.2", f"the handling of {label} is not a decision over (last, retry-on-timeout, status): {e}", T)
+                continue
+            if not outs:
+                chk.unknown("O16.2", f"{inst}: no such attempt", L)
+                continue
+            bad = [o for o in outs if o.kind != want]
+            o = (bad or outs)[0]
+            chk.ob("O16.2", inst, not bad, o.selected[0] if o.selected else T, f"{hname(o.selected)} -> {o.text()}; expected {want}", key=f"{_R}:Retry.__call__:{label}|{last}|{rot}")
+            if not bad and want == "retry":
+                ok = sleeps_ok(outs)
+                chk.ob("O16.3", f"sleep before retrying after {label}", ok, o.selected[0] if o.selected else T,
+                       "awaits sleep(<retry-wait-period>)" if ok else f"retries without awaiting the retry-wait-period (awaited sleeps: {[s_[0] for s_ in o.sleeps]}, configured {WAIT})",
+                       key=f"{_R}:Retry.__call__:sleep:{label}|{last}|{rot}")
+    # return outcomes; representative results of the delegate: (label, value, is dict, success)
     RET = [("dict success=True", {"success": True, "weight": 1}, True, True), ("dict success=False", {"success": False, "weight": 1}, True, False), ("non-dict result", (1, "ops"), False, True),
            ("None result", None, False, True), ("empty dict (no 'success' key)", {}, True, True)]
     for label, value, isdict, success in RET:
         for last, roe_ in itertools.product([False, True], repeat=2):
-            # the result handling is evaluated on the representative result, the last-attempt flag and the retry-on-error value
-            atom = value_atom({**attempt_env(last), rv: value, **({roev: roe_} if roev else {})})
-
+            want = "retry" if (isdict and not success and roe_ and not last) else "return"
+            inst = f"{label} | last={last} retry-on-error={roe_}"
             try:
-                out = decide(body[1:] + list(T.orelse), atom, {})
-            except (Unsupported, UnknownAtom) as e:
+                outs = [attempt(w, pos, ("return", value)) for rot in (False, True) for w in [world(P(rot=rot, roe=roe_))] for pos in positions(w, last)]
+            except CannotEval as e:
                 chk.unknown("O16.2", f"result handling is not a decision over (last, retry-on-error, is dict, success): {e}", T)
                 continue
-            got, sleeps = classify_outcome(out)
-            want = "retry" if (isdict and not success and roe_ and not last) else "return"
-            ok = got == want and (got != "return" or (out.value is not None and u(out.value) == rv))
-            chk.ob("O16.2", f"{label} | last={last} retry-on-error={roe_}", ok, T, f"{out.text()}; expected {want}" + (f" {rv}" if want == "return" else ""), key=f"{_R}:Retry.__call__:{label}|{last}|{roe_}")
-            if got == "retry":
-                ok = len(sleeps) == 1 and bool(sleeps[0].value.args) and carries(sleeps[0].value.args[0], "retry-wait-period", sleepv)
-                chk.ob("O16.3", f"sleep before retrying after {label}", ok, T, "" if ok else "retries without awaiting the retry-wait-period", key=f"{_R}:Retry.__call__:sleep:{label}|{last}|{roe_}")
+            if not outs:
+                chk.unknown("O16.2", f"{inst}: no such attempt", L)
+                continue
+            bad = [o for o in outs if o.kind != want or (want == "return" and o.value is not value)]
+            o = (bad or outs)[0]
+            chk.ob("O16.2", inst, not bad, T, f"{o.text()}{'' if o.kind != 'return' or o.value is value else ' something else than the result of this attempt'}; expected {want}"
+                   + (" of the attempt's result" if want == "return" else ""), key=f"{_R}:Retry.__call__:{label}|{last}|{roe_}")
+            if not bad and want == "retry":
+                ok = sleeps_ok(outs)
+                chk.ob("O16.3", f"sleep before retrying after {label}", ok, T, "" if ok else f"retries without awaiting the retry-wait-period (awaited sleeps: {[s_[0] for s_ in o.sleeps]}, configured {WAIT})",
+                       key=f"{_R}:Retry.__call__:sleep:{label}|{last}|{roe_}")
+
     # missing 'success' key defaults to success
-    gets = [n for n in ast.walk(T) if isinstance(n, ast.Call) and u(n.func) == f"{rv}.get" and n.args and source.is_const(n.args[0], "success")]
-    ok = bool(gets) and all(len(g_.args) == 2 and source.is_const(g_.args[1], True) for g_ in gets)
-    chk.ob("O16.2", "a dict without 'success' counts as success", ok, gets[0] if gets else T, "")
-    # nothing after the try in the loop body changes the outcome; nothing after the loop returns a stale value
-    after = L.body[L.body.index(T) + 1:]
-    chk.ob("O16.2", "no statement after the try in the loop body", not after, after[0] if after else L, "")
-    tail = call.body[call.body.index(L) + 1:] if L in call.body else []
-    chk.ob("O16.2", "nothing after the attempt loop", not tail and not L.orelse, tail[0] if tail else L, "")
+    def ob_nokey():
+        v = {"weight": 1, "unit": "ops"}
+        outs = [attempt(world(P(rot=True, roe=True)), pos, ("return", v)) for pos in (0, 1)]
+        bad = [o for o in outs if o.kind != "return" or o.value is not v]
+        return not bad, "" if not bad else f"a result dict without 'success' {bad[0].text()}; expected: returned"
+
+    decided("O16.2", "a dict without 'success' counts as success", T, ob_nokey)
+    # statements after the try in the loop body are part of the evaluated iteration (the tables above run the whole body); what they must not do is attempt again
+    after = [st for st in L.body[next((i for i, x in enumerate(L.body) if x is T or any(a is x for a in source.ancestors(T))), len(L.body) - 1) + 1:]]
+    again = [st for st in after if contains_delegate(st)]
+    chk.ob("O16.2", "no statement after the try in the loop body", not again, again[0] if again else L, "" if not again else "a second call of the delegate in the same iteration")
+    # nothing after the loop attempts or waits again (what it returns after `break` / exhaustion is part of the tables above)
+    extra = [st for st in list(L.orelse) + tail if contains_delegate(st) or any(isinstance(n, ast.Await) for n in ast.walk(st))]
+    chk.ob("O16.2", "nothing after the attempt loop", not extra, extra[0] if extra else L, "" if not extra else f"{short(extra[0], 60)}: an attempt or a wait beyond the configured bound")
+    # (O16.1, judged over every attempt evaluated above)
+    bad_calls = sorted({n for n in observed_calls if n != 1})
+    if observed_calls:
+        chk.ob("O16.1", "the delegate is called exactly once per attempt, inside the try", not bad_calls, sites[0],
+               f"{len(sites)} call site(s); calls per evaluated iteration: {sorted(set(observed_calls))}")
+    else:
+        chk.unknown("O16.1", "no iteration of the attempt loop could be evaluated: calls of the delegate per attempt unknown", L)
+    # (O16.1) the parameter dict belongs to the caller (a generic parameter source hands out the SAME dict for every invocation): whatever was evaluated above must have left it as it was
+    changed = [w for w in worlds.values() if w.params != w.before]
+    chk.ob("O16.1", "the wrapper leaves the caller's parameter dict unchanged", not changed, call,
+           "" if not changed else f"{changed[0].before} became {changed[0].params}: later invocations with the same dict run with other retry settings")
 
     # ---- O16.4 shadowing -------------------------------------------------------------------------------------------------------------------------------
     chk.rule("O16.4", "a handler that is completely shadowed by an earlier superclass handler (dead arm) must not classify differently from its shadow", 4,
              "a classification that can never apply hides the intended behaviour (the decision table above is computed over the handler Python really selects)")
+    handlers = [(h, interp.hnames(h)) for h in T.handlers]
 
-    def table_of(h):
+    def table_of(h, names):
         rows = []
         for last, rot, is408 in itertools.product([False, True], repeat=3):
-            atom = value_atom({**attempt_env(last), **({rotv: rot} if rotv else {}), **({h.name: Record(status_code=408 if is408 else 500)} if h.name else {})})
-
             try:
-                rows.append(classify_outcome(decide(h.body, atom, {}))[0])
-            except (Unsupported, UnknownAtom):
+                w = world(P(rot=rot, roe=False))
+                o = attempt(w, positions(w, last)[0], exc_event(names[0], 408 if is408 else 500), force=(T, h))
+                rows.append(o.kind + ("+sleep" if o.sleeps else ""))
+            except (CannotEval, IndexError):
                 rows.append("?")
         return rows
 
     for i, (h, names) in enumerate(handlers):
-        shadows = [hh for hh, pn in handlers[:i] if all(H.catches(pn, nm) for nm in names)] if i else []
+        shadows = [(hh, pn) for hh, pn in handlers[:i] if all(H.catches(pn, nm) for nm in names)] if i else []
         if not shadows:
             chk.ob("O16.4", f"`except {', '.join(names)}` reachable", True, h, "")
             continue
-        same = table_of(h) == table_of(shadows[0])
+        same = table_of(h, names) == table_of(*shadows[0])
         chk.ob("O16.4", f"dead arm `except {', '.join(names)}` agrees with its shadow", same, h, "shadowed by an earlier handler" + ("" if same else " that classifies differently"))
         chk.adv("O16.4", f"`except {', '.join(names)}` can never be selected (shadowed by an earlier handler)", h)
 
-    # ---- O16.5 advisory: which operations are wrapped ------------------------------------------------------------------------------------------------------
+    # ---- O16.5 which operations are wrapped ------------------------------------------------------------------------------------------------------
     reg = rn.func("register_default_runners")
-    wrapped = sorted({u(c.args[0]) for c in source.calls_in(reg, attr="register_runner") if len(c.args) >= 2 and isinstance(c.args[1], ast.Call) and last_attr(c.args[1].func) == "Retry"})
+    regs_all, reg_unknown = _registrations(rn, reg)
+
+    def is_retry(e):
+        return isinstance(e, ast.Call) and last_attr(e.func) == "Retry"
+
+    def op_name(e):
+        return re.sub(r"(?<!^)(?=[A-Z])", "-", u(e).split(".")[-1]).lower()
+
+    wrapped = sorted({u(k) for k, v, _ in regs_all if is_retry(v)})
     chk.stats["retry_wrapped_operations"] = wrapped
     if len(wrapped) < 10:
         chk.adv("O16.5", f"only {len(wrapped)} operations are wrapped in Retry by register_default_runners", reg)
-    # which operations are wrapped: every operation the documentation marks as retryable is registered through Retry(...)
-    import re as _re
-
     chk.rule("O16.5", "every operation type whose documentation section says `This operation is retryable` is registered as Retry(<runner>) in register_default_runners", 30,
              "the documented retry properties (retries, retry-until-success, ...) are silently ignored for that operation")
+    for text, node in reg_unknown:
+        chk.unknown("O16.5", text, node)
     chk.use("docs/track.rst")
     doc = repo.text("docs/track.rst").splitlines()
-    secs = [(i, doc[i].strip()) for i in range(len(doc) - 1) if doc[i].strip() and _re.fullmatch(r"~{3,}", doc[i + 1].strip())]
+    secs = [(i, doc[i].strip()) for i in range(len(doc) - 1) if doc[i].strip() and re.fullmatch(r"~{3,}", doc[i + 1].strip())]
     marks = [i for i, l in enumerate(doc) if "This operation is :ref:`retryable" in l]
     documented = sorted({[t for i, t in secs if i < r][-1] for r in marks if any(i < r for i, _ in secs)})
     regs = {}
-    for c in source.calls_in(reg, attr="register_runner"):
-        if len(c.args) >= 2:
-            member = u(c.args[0]).split(".")[-1]
-            regs[_re.sub(r"(?<!^)(?=[A-Z])", "-", member).lower()] = c
+    for k, v, site in regs_all:
+        regs[op_name(k)] = (v, site)  # a later registration of the same operation type replaces the earlier one
     for op in documented:
-        c = regs.get(op)
-        if c is None:
+        if op not in regs:
             chk.adv("O16.5", f"documented retryable operation `{op}` has no default registration under that name", reg)
             continue
-        ok = isinstance(c.args[1], ast.Call) and last_attr(c.args[1].func) == "Retry"
-        chk.ob("O16.5", f"`{op}` (documented as retryable) is registered through Retry", ok, c, short(c, 90), key=f"{_R}:register_default_runners:retry:{op}")
+        v, site = regs[op]
+        chk.ob("O16.5", f"`{op}` (documented as retryable) is registered through Retry", is_retry(v), site, f"registered runner: {short(v, 70)}", key=f"{_R}:register_default_runners:retry:{op}")
 
     # ---- O16.6 the retry settings reach the wrapper ----------------------------------------------------------------------------------------------------------
     chk.rule("O16.6", "for every operation documented as retryable the registered parameter source hands the task's own parameters (and with them retries, retry-until-success, "
              "retry-wait-period, retry-on-timeout, retry-on-error) on to the runner: params() forwards self._params (or every retry key)", 30,
              "the operation is wrapped in Retry but always makes exactly one attempt, whatever the track configures")
-    from sa.classes import ClassTable
     pr = repo.module("esrally/track/params.py")
     chk.use(pr)
-    tab = ClassTable(repo, ["esrally/track/params.py"])
+    ptab = ClassTable(repo, ["esrally/track/params.py"])
     reg_src = {}
     for c in ast.walk(pr.tree):
         if isinstance(c, ast.Call) and last_attr(c.func) == "register_param_source_for_operation" and len(c.args) == 2 and isinstance(c.args[1], ast.Name) and source.enclosing_func(c) is None:
-            member = u(c.args[0]).split(".")[-1]
-            reg_src[_re.sub(r"(?<!^)(?=[A-Z])", "-", member).lower()] = c.args[1].id
-    RETRY_KEYS = {"retries", "retry-until-success", "retry-wait-period", "retry-on-timeout", "retry-on-error"}
+            reg_src[op_name(c.args[0])] = c.args[1].id
+    # the attribute that holds the task's parameters: the one ParamSource.__init__(self, track, params, ...) sets from its `params` parameter
+    base_init = ptab.get("ParamSource").methods.get("__init__")
+    bp = params_of(base_init) if base_init is not None else []
+    task_attrs = {n.targets[0].attr for n in walk_body(base_init) if isinstance(n, ast.Assign) and len(n.targets) == 1 and source.is_self_attr(n.targets[0]) and isinstance(n.value, ast.Name)
+                  and len(bp) >= 3 and n.value.id == bp[2]} if base_init is not None else set()
+    if not task_attrs:
+        raise AnchorMissing("the attribute in which ParamSource.__init__ keeps the task's parameters")
+
+    def is_self_params(n, sn):
+        # self._params used as a value: dict(self._params), p.update(self._params), {**self._params}, return self._params, copy
+        return isinstance(n, ast.Attribute) and isinstance(n.value, ast.Name) and n.value.id == sn and n.attr in task_attrs and isinstance(n.ctx, ast.Load) \
+            and not isinstance(source.parent(n), ast.Subscript) and not (isinstance(source.parent(n), ast.Attribute) and source.parent(n).attr != "copy") \
+            and not (isinstance(source.parent(n), ast.Call) and source.parent(n).func is n)
 
     def forwards(cname):
-        ci = tab.get(cname)
-        f = tab.method(ci, "params")
+        pci = ptab.get(cname)
+        f = ptab.method(pci, "params")
         if f is None:
-            return False, f"{cname} has no params()"
-        txt_nodes = [n for n in walk_body(f)]
-        all_fw = any(is_self_params(n) for n in txt_nodes)
-        keys = {k.value for n in txt_nodes if isinstance(n, ast.Dict) for k in n.keys if isinstance(k, ast.Constant)}
+            raise AnchorMissing(f"{cname} has no params()")
+        # params() together with the helper methods it calls (self.m(), MRO-resolved)
+        fs, work, seen = [], [f], set()
+        while work:
+            g = work.pop()
+            if id(g) in seen:
+                continue
+            seen.add(id(g))
+            fs.append(g)
+            for n in walk_body(g):
+                if isinstance(n, ast.Call) and isinstance(n.func, ast.Attribute) and isinstance(n.func.value, ast.Name) and n.func.value.id == (params_of(g) or [""])[0]:
+                    m = ptab.method(pci, n.func.attr)
+                    if m is not None:
+                        work.append(m)
+        all_fw = any(is_self_params(n, (params_of(g) or [""])[0]) for g in fs for n in walk_body(g))
+        keys = {k.value for g in fs for n in walk_body(g) if isinstance(n, ast.Dict) for k in n.keys if isinstance(k, ast.Constant)}
+        keys |= {n.slice.value for g in fs for n in walk_body(g) if isinstance(n, ast.Subscript) and isinstance(n.ctx, ast.Store) and isinstance(n.slice, ast.Constant)}
         ok_ = all_fw or RETRY_KEYS <= keys
-        owner = next((c_.name for c_ in tab.mro(ci) if "params" in c_.methods), cname)
-        return ok_, f"{owner}.params() " + ("forwards self._params" if all_fw else ("names every retry key" if ok_ else f"returns only {sorted(keys)}"))
+        owner = next((c_.name for c_ in ptab.mro(pci) if "params" in c_.methods), cname)
+        return ok_, f"{owner}.params() " + ("forwards self._params" if all_fw else ("names every retry key" if ok_ else f"returns only {sorted(keys, key=str)}"))
 
-    def is_self_params(n):
-        # self._params used as a value: dict(self._params), p.update(self._params), {**self._params}, return self._params, copy
-        return isinstance(n, ast.Attribute) and isinstance(n.value, ast.Name) and n.value.id == "self" and n.attr == "_params" and isinstance(n.ctx, ast.Load) \
-            and not isinstance(source.parent(n), (ast.Subscript, ast.Attribute)) and not (isinstance(source.parent(n), ast.Call) and source.parent(n).func is n)
-
-    n66 = 0
     for op in documented:
         cname = reg_src.get(op, "ParamSource")
         try:
@@ -347,12 +1081,35 @@ def run(chk):
         except AnchorMissing as e:
             chk.unknown("O16.6", f"parameter source class {cname} of `{op}` not found: {e}", pr.tree)
             continue
-        n66 += 1
-        chk.ob("O16.6", f"`{op}`: retry settings reach Retry through {cname}", ok_, tab.method(tab.get(cname), "params") or tab.get(cname).node, why,
+        chk.ob("O16.6", f"`{op}`: retry settings reach Retry through {cname}", ok_, ptab.method(ptab.get(cname), "params") or ptab.get(cname).node, why,
                key=f"esrally/track/params.py:{cname}.params:forwards-task-params:{op}")
 
 
 from sa.selftest import V  # noqa: E402
+
+_SETTINGS = ("        retry_until_success = params.get(\"retry-until-success\", self.retry_until_success)\n        if retry_until_success:\n            max_attempts = sys.maxsize\n"
+             "            retry_on_error = True\n        else:\n            max_attempts = params.get(\"retries\", 0) + 1\n            retry_on_error = params.get(\"retry-on-error\", False)\n"
+             "        sleep_time = params.get(\"retry-wait-period\", 0.5)\n        retry_on_timeout = params.get(\"retry-on-timeout\", True)\n")
+_REPR = "    def __repr__(self, *args, **kwargs):\n        return \"retryable %s\" % repr(self.delegate)"
+_REG2 = ("    register_runner(track.OperationType.ClusterHealth, Retry(ClusterHealth()), async_runner=True)\n"
+         "    register_runner(track.OperationType.PutPipeline, Retry(PutPipeline()), async_runner=True)\n")
+_RESULT = ("                elif isinstance(return_value, dict):\n                    if return_value.get(\"success\", True):\n"
+           "                        self.logger.debug(\"%s has returned successfully\", repr(self.delegate))\n                        return return_value\n                    else:\n"
+           "                        self.logger.info(\n                            \"[%s] has returned with an error: %s. Retrying in [%.2f] seconds.\",\n                            repr(self.delegate),\n"
+           "                            return_value,\n                            sleep_time,\n                        )\n                        await asyncio.sleep(sleep_time)\n"
+           "                else:\n                    return return_value\n")
+_RESULT_NEW = ("                elif self._has_failed(return_value):\n                    self.logger.info(\"[%s] has returned with an error: %s. Retrying in [%.2f] seconds.\", repr(self.delegate), return_value, sleep_time)\n"
+               "                    await asyncio.sleep(sleep_time)\n                else:\n                    return return_value\n")
+_CMT = "                # we can determine success if and only if the runner returns a dict. Otherwise, we have to assume it was fine.\n"
+_HAS_FAILED = "    @staticmethod\n    def _has_failed(return_value):\n        return isinstance(return_value, dict) and not return_value.get(\"success\", True)\n\n"
+
+
+def _helper(retries='params.get("retries", 0) + 1', forced="True"):
+    return ("    def _retry_settings(self, params):\n        if params.get(\"retry-until-success\", self.retry_until_success):\n            max_attempts = sys.maxsize\n"
+            f"            retry_on_error = {forced}\n        else:\n            max_attempts = {retries}\n            retry_on_error = params.get(\"retry-on-error\", False)\n"
+            "        sleep_time = params.get(\"retry-wait-period\", 0.5)\n        retry_on_timeout = params.get(\"retry-on-timeout\", True)\n"
+            "        return max_attempts, retry_on_error, retry_on_timeout, sleep_time\n\n")
+
 
 VARIANTS = [
     V("F6: other transport errors swallowed", "break", _R, "                # any other transport error (e.g. a serialization error) is neither a timeout nor a connection error: never retry it\n                raise e",
@@ -377,4 +1134,90 @@ VARIANTS = [
     V("bare raise instead of raise e", "keep", _R, "                # any other transport error (e.g. a serialization error) is neither a timeout nor a connection error: never retry it\n                raise e", "                raise"),
     V("inverted 408 test", "keep", _R, "                if e.status_code == 408:\n                    self.logger.info(\"[%s] has timed out. Retrying in [%.2f] seconds.\", repr(self.delegate), sleep_time)\n                    await asyncio.sleep(sleep_time)\n                else:\n                    raise e",
       "                if e.status_code != 408:\n                    raise e\n                self.logger.info(\"[%s] has timed out. Retrying in [%.2f] seconds.\", repr(self.delegate), sleep_time)\n                await asyncio.sleep(sleep_time)"),
+    # ---- refactored shapes (benign round): the same property in another spelling must stay silent, a defect INSIDE the refactored shape must still be reported
+    [V("settings extracted into a helper method returning a tuple", "keep", _R, _SETTINGS, "        max_attempts, retry_on_error, retry_on_timeout, sleep_time = self._retry_settings(params)\n"),
+     V("", "keep", _R, _REPR, _helper() + _REPR)],
+    [V("extracted settings helper forgets the + 1", "break", _R, _SETTINGS, "        max_attempts, retry_on_error, retry_on_timeout, sleep_time = self._retry_settings(params)\n", "O16.1"),
+     V("", "break", _R, _REPR, _helper(retries='params.get("retries", 0)') + _REPR)],
+    [V("extracted settings helper lets retry-on-error override retry-until-success", "break", _R, _SETTINGS, "        max_attempts, retry_on_error, retry_on_timeout, sleep_time = self._retry_settings(params)\n", "O16.1"),
+     V("", "break", _R, _REPR, _helper(forced='params.get("retry-on-error", True)') + _REPR)],
+    [V("extracted settings helper returns the tuple in another order than the caller unpacks", "break", _R, _SETTINGS, "        max_attempts, retry_on_timeout, retry_on_error, sleep_time = self._retry_settings(params)\n", "O16."),
+     V("", "break", _R, _REPR, _helper() + _REPR)],
+    [V("unsuccessful-result test extracted into a static helper", "keep", _R, _RESULT, _RESULT_NEW),
+     V("", "keep", _R, _REPR, _HAS_FAILED + _REPR)],
+    [V("extracted result helper treats a missing 'success' as failure", "break", _R, _RESULT, _RESULT_NEW, "O16.2"),
+     V("", "break", _R, _REPR, _HAS_FAILED.replace('.get("success", True)', '.get("success")') + _REPR)],
+    [V("extracted result helper also fails non-dict results", "break", _R, _RESULT, _RESULT_NEW, "O16.2"),
+     V("", "break", _R, _REPR, _HAS_FAILED.replace("isinstance(return_value, dict) and not", "not isinstance(return_value, dict) or not") + _REPR)],
+    V("1-based attempt counter", "keep", _R, "        for attempt in range(max_attempts):\n            last_attempt = attempt + 1 == max_attempts",
+      "        for attempt in range(1, max_attempts + 1):\n            last_attempt = attempt == max_attempts"),
+    V("1-based attempt counter with the 0-based last-attempt test", "break", _R, "        for attempt in range(max_attempts):\n            last_attempt = attempt + 1 == max_attempts",
+      "        for attempt in range(1, max_attempts + 1):\n            last_attempt = attempt + 1 == max_attempts", "O16."),
+    V("1-based attempt counter that starts at 1 but still stops at max_attempts", "break", _R, "        for attempt in range(max_attempts):\n            last_attempt = attempt + 1 == max_attempts",
+      "        for attempt in range(1, max_attempts):\n            last_attempt = attempt + 1 == max_attempts", "O16.1"),
+    V("last attempt recognised inline, no flag", "keep", _R, "            last_attempt = attempt + 1 == max_attempts\n", "            last_attempt = max_attempts - attempt <= 1\n"),
+    V("attempt loop moved into a helper coroutine", "keep", _R, "        for attempt in range(max_attempts):\n",
+      "        return await self._attempts(es, params, max_attempts, retry_on_error, sleep_time, retry_on_timeout)\n\n"
+      "    async def _attempts(self, es, params, max_attempts, retry_on_error, sleep_time, retry_on_timeout):\n        # pylint: disable=import-outside-toplevel\n        import socket\n\n"
+      "        import elasticsearch\n\n        for attempt in range(max_attempts):\n"),
+    V("attempt loop moved into a helper coroutine, two switches swapped at the call", "break", _R, "        for attempt in range(max_attempts):\n",
+      "        return await self._attempts(es, params, max_attempts, retry_on_timeout, sleep_time, retry_on_error)\n\n"
+      "    async def _attempts(self, es, params, max_attempts, retry_on_error, sleep_time, retry_on_timeout):\n        # pylint: disable=import-outside-toplevel\n        import socket\n\n"
+      "        import elasticsearch\n\n        for attempt in range(max_attempts):\n", "O16."),
+    [V("wait extracted into a helper coroutine", "keep", _R, "                if last_attempt or not retry_on_timeout:\n                    raise\n                await asyncio.sleep(sleep_time)",
+       "                if last_attempt or not retry_on_timeout:\n                    raise\n                await self._pause(sleep_time)"),
+     V("", "keep", _R, _REPR, "    async def _pause(self, seconds):\n        self.logger.debug(\"Waiting [%.2f] seconds.\", seconds)\n        await asyncio.sleep(seconds)\n\n" + _REPR)],
+    [V("wait helper coroutine called without await", "break", _R, "                if last_attempt or not retry_on_timeout:\n                    raise\n                await asyncio.sleep(sleep_time)",
+       "                if last_attempt or not retry_on_timeout:\n                    raise\n                self._pause(sleep_time)", "O16.3"),
+     V("", "break", _R, _REPR, "    async def _pause(self, seconds):\n        self.logger.debug(\"Waiting [%.2f] seconds.\", seconds)\n        await asyncio.sleep(seconds)\n\n" + _REPR)],
+    [V("wait helper sleeps a fixed period", "break", _R, "                if last_attempt or not retry_on_timeout:\n                    raise\n                await asyncio.sleep(sleep_time)",
+       "                if last_attempt or not retry_on_timeout:\n                    raise\n                await self._pause(sleep_time)", "O16.3"),
+     V("", "break", _R, _REPR, "    async def _pause(self, seconds):\n        self.logger.debug(\"Waiting [%.2f] seconds.\", seconds)\n        await asyncio.sleep(0.5)\n\n" + _REPR)],
+    [V("attempt counter kept on the wrapper, never read by the call", "keep", _R, "            last_attempt = attempt + 1 == max_attempts\n", "            last_attempt = attempt + 1 == max_attempts\n            self.attempts_made += 1\n"),
+     V("", "keep", _R, "        self.retry_until_success = retry_until_success\n", "        self.retry_until_success = retry_until_success\n        self.attempts_made = 0\n")],
+    V("retry parameters read through a copy of the parameter dict", "keep", _R, "        retry_until_success = params.get(\"retry-until-success\", self.retry_until_success)\n",
+      "        settings = dict(params)\n        retry_until_success = settings.pop(\"retry-until-success\", self.retry_until_success)\n"),
+    V("log line after the try in the loop body", "keep", _R, "                raise e\n\n    async def __aexit__", "                raise e\n            self.logger.debug(\"Attempt [%d] did not succeed.\", attempt + 1)\n\n    async def __aexit__"),
+    V("second delegate call after the loop", "break", _R, "                raise e\n\n    async def __aexit__", "                raise e\n        return await self.delegate(es, params)\n\n    async def __aexit__", "O16.2"),
+    V("table-driven registration of retry-wrapped runners", "keep", _R, _REG2,
+      "    administrative_runners = {\n        track.OperationType.ClusterHealth: ClusterHealth(),\n        track.OperationType.PutPipeline: PutPipeline(),\n    }\n"
+      "    for operation_type, administrative_runner in administrative_runners.items():\n        register_runner(operation_type, Retry(administrative_runner), async_runner=True)\n"),
+    V("table-driven registration that forgets the Retry wrapper", "break", _R, _REG2,
+      "    administrative_runners = {\n        track.OperationType.ClusterHealth: ClusterHealth(),\n        track.OperationType.PutPipeline: PutPipeline(),\n    }\n"
+      "    for operation_type, administrative_runner in administrative_runners.items():\n        register_runner(operation_type, administrative_runner, async_runner=True)\n", "O16.5"),
+    V("table-driven registration over a list of pairs, one entry not wrapped", "break", _R, _REG2,
+      "    for operation_type, administrative_runner in [(track.OperationType.ClusterHealth, Retry(ClusterHealth())), (track.OperationType.PutPipeline, PutPipeline())]:\n"
+      "        register_runner(operation_type, administrative_runner, async_runner=True)\n", "O16.5"),
+    V("registration through a local helper function", "keep", _R, _REG2,
+      "    def register_retryable(operation_type, runner):\n        register_runner(operation_type, Retry(runner), async_runner=True)\n\n"
+      "    register_retryable(track.OperationType.ClusterHealth, ClusterHealth())\n    register_retryable(track.OperationType.PutPipeline, PutPipeline())\n"),
+    V("settings as conditional expressions", "keep", _R, _SETTINGS.split("        sleep_time")[0],
+      "        rus = params.get(\"retry-until-success\", self.retry_until_success)\n        max_attempts = sys.maxsize if rus else params.get(\"retries\", 0) + 1\n"
+      "        retry_on_error = rus or params.get(\"retry-on-error\", False)\n"),
+    V("settings as conditional expressions, retry-on-error may switch the forced retry off", "break", _R, _SETTINGS.split("        sleep_time")[0],
+      "        rus = params.get(\"retry-until-success\", self.retry_until_success)\n        max_attempts = sys.maxsize if rus else params.get(\"retries\", 0) + 1\n"
+      "        retry_on_error = params.get(\"retry-on-error\", rus)\n", "O16.1"),
+    V("result handling as merged guard clause", "keep", _R, _RESULT, "                if not isinstance(return_value, dict) or return_value.get(\"success\", True):\n                    return return_value\n"
+      "                await asyncio.sleep(sleep_time)\n"),
+    V("result handling as merged guard clause, wait forgotten", "break", _R, _RESULT, "                if not isinstance(return_value, dict) or return_value.get(\"success\", True):\n                    return return_value\n", "O16.3"),
+    [V("result handling in the else clause of the try", "keep", _R, "                if last_attempt or not retry_on_error:\n                    return return_value\n" + _CMT + _RESULT, ""),
+     V("", "keep", _R, "                raise e\n\n    async def __aexit__", "                raise e\n            else:\n                if last_attempt or not retry_on_error:\n                    return return_value\n"
+       "                if not isinstance(return_value, dict) or return_value.get(\"success\", True):\n                    return return_value\n                await asyncio.sleep(sleep_time)\n\n    async def __aexit__")],
+    [V("success leaves the loop with break, the result is returned after the loop", "keep", _R, _RESULT, "                if not isinstance(return_value, dict) or return_value.get(\"success\", True):\n                    break\n"
+       "                await asyncio.sleep(sleep_time)\n"),
+     V("", "keep", _R, "                if last_attempt or not retry_on_error:\n                    return return_value\n", "                if last_attempt or not retry_on_error:\n                    break\n"),
+     V("", "keep", _R, "                raise e\n\n    async def __aexit__", "                raise e\n        return return_value\n\n    async def __aexit__")],
+    [V("success leaves the loop with break, but None is returned after the loop", "break", _R, _RESULT, "                if not isinstance(return_value, dict) or return_value.get(\"success\", True):\n                    break\n"
+       "                await asyncio.sleep(sleep_time)\n", "O16.2"),
+     V("", "break", _R, "                if last_attempt or not retry_on_error:\n                    return return_value\n", "                if last_attempt or not retry_on_error:\n                    break\n")],
+    [V("handler classes in a local tuple", "keep", _R, "        for attempt in range(max_attempts):\n", "        connection_problems = (socket.timeout, elasticsearch.exceptions.ConnectionError)\n        for attempt in range(max_attempts):\n"),
+     V("", "keep", _R, "            except (socket.timeout, elasticsearch.exceptions.ConnectionError):", "            except connection_problems:")],
+    V("the last attempt's transport error is wrapped in another exception", "break", _R,
+      "                # any other transport error (e.g. a serialization error) is neither a timeout nor a connection error: never retry it\n                raise e",
+      "                raise exceptions.RallyError(\"transport error\") from e", "O16.2"),
+    V("validation guard before the attempt loop", "keep", _R, "        for attempt in range(max_attempts):\n",
+      "        if max_attempts < 1:\n            raise exceptions.RallyAssertionError(\"retries must not be negative\")\n        for attempt in range(max_attempts):\n"),
+    [V("parameter source forwards the task's parameters through a helper method", "keep", "esrally/track/params.py", "        p = {}\n        # ensure we pass all parameters...\n        p.update(self._params)\n        p.update(\n            {\n                \"indices\": self.index_definitions,\n                \"request-params\": self.request_params,\n            }",
+       "        p = self._task_params()\n        p.update(\n            {\n                \"indices\": self.index_definitions,\n                \"request-params\": self.request_params,\n            }"),
+     V("", "keep", "esrally/track/params.py", "    def _client_params(self):\n", "    def _task_params(self):\n        return dict(self._params)\n\n    def _client_params(self):\n")],
 ]
